@@ -30,6 +30,9 @@ type LStep struct {
 	// index, but the range the library sees is W wide (W == 0: the plain single index)
 	W     int `json:"w,omitempty"`
 	PStep int `json:"pstep,omitempty"`
+	// slice: axes that are taken whole are passed as nil (true) or as the explicit range [0:n] (false);
+	// the library flags the resulting view differently
+	Nil bool `json:"nil,omitempty"`
 }
 
 // Layout is a recipe that realises a logical array as a *tensor.Dense.
@@ -51,6 +54,9 @@ func (l Layout) String() string {
 			s += fmt.Sprintf(".T%v", st.Perm)
 		case "slice":
 			s += fmt.Sprintf(".slice(lo%v hi%v step%v)", st.Lo, st.Hi, st.Step)
+			if st.Nil {
+				s += "[whole axes as nil]"
+			}
 		case "spick":
 			s += fmt.Sprintf(".slice+pick(axis%d idx%d of%d; lo%v hi%v step%v)", st.Axis, st.Idx, st.Size, st.Lo, st.Hi, st.Step)
 		case "pick":
@@ -221,6 +227,10 @@ func (st LStep) applyLib(t *tensor.Dense) (*tensor.Dense, error) {
 		sl := make([]tensor.Slice, len(sh))
 		for j, d := range sh {
 			if d == 1 {
+				sl[j] = nil
+				continue
+			}
+			if st.Nil && st.Lo[j] == 0 && st.Hi[j] == 0 && st.Step[j] == 1 {
 				sl[j] = nil
 				continue
 			}
@@ -663,7 +673,7 @@ func allPermsCached(n int) [][]int {
 }
 
 func genSliceStep(t *rapid.T, rank int, stepped bool, label string) LStep {
-	st := LStep{Op: "slice", Lo: make([]int, rank), Hi: make([]int, rank), Step: make([]int, rank)}
+	st := LStep{Op: "slice", Lo: make([]int, rank), Hi: make([]int, rank), Step: make([]int, rank), Nil: rapid.Bool().Draw(t, label+"nil")}
 	any := false
 	for j := 0; j < rank; j++ {
 		st.Lo[j] = rapid.IntRange(0, 2).Draw(t, label+"lo")
@@ -734,11 +744,20 @@ func genLayoutKind(t *rapid.T, kind string, rank int, label string) Layout {
 		l.Steps = []LStep{genSliceStep(t, rank, true, label)}
 	case "leadsliced":
 		// a slice of the leading axis only: a view whose storage window has no gaps
-		st := LStep{Op: "slice", Lo: make([]int, rank), Hi: make([]int, rank), Step: ones(rank)}
+		st := LStep{Op: "slice", Lo: make([]int, rank), Hi: make([]int, rank), Step: ones(rank), Nil: rapid.IntRange(0, 3).Draw(t, label+"nil") > 0}
 		st.Lo[0] = rapid.IntRange(0, 2).Draw(t, label+"lo")
 		st.Hi[0] = rapid.IntRange(0, 2).Draw(t, label+"hi")
 		if st.Lo[0]+st.Hi[0] == 0 {
 			st.Lo[0] = 1
+		}
+		l.Steps = []LStep{st}
+	case "tailsliced":
+		// a slice of the trailing axis only: for a column-major root a view whose storage window has no gaps
+		st := LStep{Op: "slice", Lo: make([]int, rank), Hi: make([]int, rank), Step: ones(rank), Nil: rapid.IntRange(0, 3).Draw(t, label+"nil") > 0}
+		st.Lo[rank-1] = rapid.IntRange(0, 2).Draw(t, label+"lo")
+		st.Hi[rank-1] = rapid.IntRange(0, 2).Draw(t, label+"hi")
+		if st.Lo[rank-1]+st.Hi[rank-1] == 0 {
+			st.Lo[rank-1] = 1
 		}
 		l.Steps = []LStep{st}
 	case "slicedT":
